@@ -3,5 +3,6 @@ CONSTANT Depth = 3
 CONSTANT Shift = "2147483648"
 CONSTANT Win0 = 0
 CONSTANT Mms = 0
+CONSTANT Side = "client"
 INVARIANT Emit
 CHECK_DEADLOCK FALSE
